@@ -46,6 +46,8 @@ def run(rep, kf, tier, seed):
                 engine_b.discharge(r, kf, [c], "C02", tier, seed)
                 for o in r.obligations:
                     o.id = o.id.replace(".B.", ".F.")
+                    o.unit = f"templates model.py.jinja + property_templates/*.jinja as rendered for schematic model {name} ({version})"
+                    o.where = "openapi_python_client/templates/model.py.jinja"
                     o.backend = "z3 (fragment rendered by the real templates)"
                 return r
             tasks.append(task)
